@@ -13,7 +13,7 @@ ID = "C03"
 LEVEL = "exploration"
 RULE = (
     "Hypothesis draws profiles (closures, free arrays, constants), grid nx,ny in 2..10 (dx != dy), modes below/at/above/default, "
-    "1..5 levels in any order incl. surface and top, sign-changing sources with non-zero mean, background, on-grid tower, halo kind. "
+    "1..5 levels in any order incl. surface and top, sign-changing sources with non-zero mean, background, on-grid tower (in the halo sub-check a third of the footprint cases put it one cell beyond the window, inside the halo), halo kind. "
     "Oracles with halo=0 (whole periodic domain returned): mean_xy flux[k] == mean source; sum footprint[k] == 1 and mean_xy of the concentration footprint == bg - R_k/N; mean_xy conc[k] == "
     "bg - mean(q0)*R_k with R_k the trapezoidal resistance on the given nodes (or any value at least as close to the exact integral "
     "of dz/Kz, where that is known in closed form). Halo: S(q0, halo=H) == crop(S(zero-padded q0 on the enlarged domain, halo=0, "
@@ -54,6 +54,9 @@ def _case(draw):
     case["analytic"] = case["prof"]["kind"] == "const" and draw(st.booleans())
     case["fp_halo"] = draw(st.booleans())  # mode used for the halo-equivalence sub-check
     case["recentre"] = draw(st.booleans())
+    # halo sub-check in footprint mode: the tower one cell beyond the window's east edge (x = xmax) or one cell south of it
+    # (y = -dy) in a third of the cases - inside the halo, where the periodic box is the padded one
+    case["tower_off"] = draw(st.sampled_from([None, None, "east", "south"]))
     return case
 
 
@@ -154,6 +157,11 @@ def check_case(case):
     # dispersion re-centring is only documented for even sizes (domain centre on the grid)
     recentre = case["recentre"] and not fpm
     mp_h = mp if (fpm or recentre) else (0.0, 0.0)
+    off = bool(fpm and case.get("tower_off") and px >= 1 and py >= 1)
+    if off:
+        im_, jm_ = case["tower"]
+        mp_h = gen.meas_pt_of(case, (nx, jm_) if case["tower_off"] == "east" else (im_, -1))
+        out.label("halo-sub-tower-beyond-window")
     _, ch, fh = sut.S(q0, z, prof, dom, lv, modes=modes, meas_pt=mp_h, srf_bg_conc=case["bg"], footprint=fpm,
                       halo=hv, precision="double", analytic=bool(case.get("analytic")))
     ch, fh = sut.as3d(ch), sut.as3d(fh)
@@ -178,12 +186,15 @@ def check_case(case):
             _, cp, fp = sut.S(qp, z, prof, domp, lv, modes=modes, meas_pt=mpp, srf_bg_conc=case["bg"],
                               footprint=fpm, halo=0.0, precision="double", analytic=bool(case.get("analytic")))
             cp, fp = sut.as3d(cp), sut.as3d(fp)
+            # (with the tower beyond the window the window may hold next to nothing of the footprint: differences are then
+            #  rounding relative to the field where it is large, i.e. to the maximum over the whole padded domain)
+            ffloor, cfloor = (tol.maxabs(fp), tol.maxabs(cp)) if off else (0.0, 0.0)
             cp = cp[:, cy : cy + ny, cx : cx + nx]
             fp = fp[:, cy : cy + ny, cx : cx + nx]
             relh = max(rel, 1e-10)
             e = max(
-                tol.maxabs(fp - fh) / max(tol.maxabs(fp), 1e-300 if fpm else fs0, 1e-300),
-                tol.maxabs(cp - ch) / max(tol.maxabs(cp), abs(case["bg"]), 1e-300 if fpm else cs0, 1e-300),
+                tol.maxabs(fp - fh) / max(tol.maxabs(fp), 1e-300 if fpm else fs0, 1e-300, ffloor),
+                tol.maxabs(cp - ch) / max(tol.maxabs(cp), abs(case["bg"]), 1e-300 if fpm else cs0, 1e-300, cfloor),
             )
             best = e if best is None else min(best, e)
         if not best <= max(rel, 1e-10):
